@@ -31,4 +31,8 @@ def fsqrt (a : Nat) : Option Nat :=
 /-- a square root of −3 -/
 def cSqrtM3 : Nat := 0x0a2d2ba93507f1df233770c2a797962cc61f6d15da14ecd47d8d27ae1cd5f852
 
+/-- c² = −3 (mod p) -/
+theorem cSqrtM3_sq : (cSqrtM3 * cSqrtM3 + 3) % p = 0 := by
+  simp only [cSqrtM3, p, Nat.reduceMul, Nat.reduceAdd, Nat.reduceMod]
+
 end BV.C19.Field
